@@ -297,5 +297,11 @@ def run(rep, prog, tier):
     check_frozen_migration_guard(rep, prog)
     # (4) marginalisation
     check_marginalisation(rep, prog)
+    # the kernels address the density as a C-ordered block: axis k of the array must be population k when they run, or the
+    # per-population parameters, frozen flags and corner conditions act on the wrong axes (rule shared with C20)
+    from rules import c20
+    from sa.report import Scoped
+    c20.run(Scoped(rep, lambda rule, construct, what: rule == 'R-LAYOUT' and 'Integration.py' in construct), prog, tier)
     rep.floor('R-ALG', 60)
     rep.floor('R-DOM', 25)
+    rep.floor('R-LAYOUT', 15)
